@@ -202,6 +202,19 @@ func scopesC01(thorough bool) []Scope {
 		w = lat.Window(3, 2, 2)
 	}
 	scs = append(scs, Scope{Name: "L-half-2-multi", GS: synthGS(2, 2, [2]int64{28, 28}), Spec: lat.Spec{Points: w, MaxK: 5, Valid: true}, IDSets: [][]int{{0, 2}, {0, 1, 2}}, Cfgs: []snap.Config{{}}})
+	// more vertices on fewer candidate points: all simple polygons of up to seven vertices over the nine pixel centres of a
+	// 3x3 window straddling the root centre (an edge and the vertex of a non-adjacent part it has to be routed around)
+	scs = append(scs, Scope{Name: "L-centres-3", GS: synthGS(0, 2, [2]int64{6, 6}), Spec: lat.Spec{Points: lat.Centres(3, 3), MaxK: 7, Valid: true}, IDSets: [][]int{{0}}, Cfgs: keepCfgs})
+	{
+		// centres and corners of the 3x3 window (25 of the 49 half-pixel lattice points), up to five vertices
+		var pts []ref.P
+		for _, p := range lat.Window(3, 3, 2) {
+			if (p[0]+p[1])%2 == 0 && p[0]%2 == p[1]%2 {
+				pts = append(pts, p)
+			}
+		}
+		scs = append(scs, Scope{Name: "L-centres+corners-3", GS: synthGS(0, 2, [2]int64{6, 6}), Spec: lat.Spec{Points: pts, MaxK: 5, Valid: true}, IDSets: [][]int{{0}}, Cfgs: []snap.Config{{}}})
+	}
 	// the same at the ORIGIN of the grid, where pixel (x,y) of the coarser id and pixel (x,y) of the finer id (same
 	// Z-order key, different level) both lie inside the window: whatever is keyed by a pixel address alone
 	scs = append(scs, Scope{Name: "L-centres-4-origin-multi", GS: synthGS(1, 2, [2]int64{0, 0}), Spec: lat.Spec{Points: lat.Centres(4, 4), MaxK: 5, Valid: true}, IDSets: [][]int{{0, 1}, {1, 0}}, Cfgs: []snap.Config{{}}})
